@@ -1,0 +1,34 @@
+//go:build verif
+
+// Package verifhook provides named instrumentation points used by external
+// verification harnesses. With the "verif" build tag a harness can install a
+// handler which is invoked at every point; it may record the event, delay,
+// block, return an injected error or kill the process.
+package verifhook
+
+import "sync/atomic"
+
+// Enabled reports whether instrumentation points are compiled in.
+const Enabled = true
+
+// Handler is invoked at every instrumentation point.
+type Handler func(name string, args ...interface{}) error
+
+var handler atomic.Pointer[Handler]
+
+// Set installs (or, with nil, removes) the handler.
+func Set(h Handler) {
+	if h == nil {
+		handler.Store(nil)
+		return
+	}
+	handler.Store(&h)
+}
+
+// Point invokes the installed handler, if any.
+func Point(name string, args ...interface{}) error {
+	if h := handler.Load(); h != nil {
+		return (*h)(name, args...)
+	}
+	return nil
+}
